@@ -22,7 +22,10 @@ is ONE object (station, ev_history, pending UnplugEvent, event_history, pending 
 `to_json` of the restored simulator equals the original under the structural id bijection.
 CORRESPONDENCE: one model run (fail at k, then resume; drv_C09 "sim") against run b incl. the failed
 state, and the registry walk (`dump` order, `load ∘ dump`, key uniqueness; drv_C09 "reg") against the
-`context_dict` that `to_json` wrote at the crash point (handed to the model in scrambled order).
+`context_dict` that `to_json` wrote at the crash point (handed to the model in scrambled order); the model's own
+codec (`RegistrySim.encode` of the failed model state, "crash_store") against that same `context_dict`: class of
+every object, attribute key sets, every tracked scalar, and the reference graph up to id renaming (tree
+unfolding from the root + number of objects per class, i.e. the same sharing).
 """
 from __future__ import annotations
 
@@ -45,6 +48,7 @@ REQUIRED_THEOREMS = [
     "Acn.C09.failed_body_idempotent_prefix", "Acn.C09.resume_eq", "Acn.C09.resume_eq_complete",
     "Acn.C09.dump_each_object_once", "Acn.C09.roundtrip_store", "Acn.C09.sharing_preserved",
     "Acn.C09.roundtrip_resume_eq_partial", "Acn.C09.attrs_complete",
+    "Acn.C09.encode_roundtrip", "Acn.C09.roundtrip_resume_eq_codec_partial",
 ]
 BUDGET = {"quick": 40, "thorough": 450, "search": 120}
 TRUSTED = ["json.dumps/json.loads round-trip Python floats, ints, strings, lists and dicts exactly (dict order kept)",
@@ -55,6 +59,11 @@ TRUSTED = ["json.dumps/json.loads round-trip Python floats, ints, strings, lists
 ASSUMPTIONS = ["the scheduler is a function of the Interface view (no hidden state): the resumed run gets an "
                "algorithm that returns the same schedules; `signals`, the scheduler object and tzinfo of `start` "
                "are not part of the serialised state by design (DESIGN §8)",
+               "an algorithm WITH hidden state (SortedSchedulingAlgo / RoundRobin with the SimpleRampdown estimator: "
+               "per-session upper bounds live in the estimator object) is covered when that object survives: crash + "
+               "run() again, and JSON round trip + update_scheduler(the ORIGINAL algorithm object) must equal the "
+               "uninterrupted run; a FRESH estimator after the load has lost its bounds — the property's 'given its "
+               "scheduler again' does not promise equality there (measured: features estimator_fresh_algo_after_json)",
                "sessions are well formed (0 <= arrival < departure, distinct ids): with departure <= arrival the "
                "unplug event is already due when the run is resumed and is processed one period earlier",
                "StochasticNetwork (contrib) defines no _to_dict: its waiting queue is documented as not restorable "
@@ -64,6 +73,10 @@ RULE = ("scenario = 1-4 stations of mixed EVSE classes (continuous / deadband / 
         "events (also after the last departure), period in {0.5,1,5,15}, max_recompute in {None,1,2}, scripted "
         "multi-period schedules / empty scheduler; every 5th scenario runs on the contrib StochasticNetwork (seeded "
         "random space assignment, waiting queue, early departure; crash+resume only, implementation oracle only); "
+        "every 5th scenario uses a REAL algorithm (uncontrolled, sorted fcfs/edf, round robin; with/without the "
+        "SimpleRampdown estimator and the minimum-rate option; two-stage batteries) with two extra runs: failure AFTER "
+        "the algorithm ran, and JSON round trip with the original algorithm object re-attached; thorough adds EVERY "
+        "valid layout of <=3 sessions on <=2 stations within horizon 3 x every crash period; "
         "one case per scheduler-invoked period k of the scenario + one "
         "non-invoked period; non-trivial = the failure fired with at least one EV connected or an event pending; "
         "distinct by hash of (scenario, k)")
@@ -191,10 +204,57 @@ def _gen_stochastic(rng):
             "stochastic": {"seed": rng.randint(0, 10 ** 6), "early": rng.random() < 0.6}}
 
 
+def _gen_real(rng):
+    """a REAL algorithm as the scheduler: sorted greedy (fcfs / edf), round robin, uncontrolled; with and
+    without the SimpleRampdown estimator (hidden per-session state) and the minimum-rate option"""
+    scn = S.gen_case(rng, real_algos=True, max_sessions=6, max_stations=4)
+    scn["max_recompute"] = rng.choice([1, 1, 1, 2, None])
+    t = scn["sched"]["type"]
+    if t != "uncontrolled":
+        scn["sched"]["estimator"] = rng.random() < 0.5
+        scn["sched"]["uninterrupted"] = rng.random() < 0.3
+    for s_ in scn["sessions"]:                     # two-stage batteries: the rate falls behind the pilot
+        if rng.random() < 0.6:
+            b = s_["batt"]
+            s_["batt"] = {"two": True, "cap": b["cap"], "init": round(0.6 * b["cap"] + 0.39 * rng.random() * b["cap"], 3),
+                          "maxp": b["maxp"], "noise": rng.choice([0, 0, 0.5]), "ts": rng.choice([0.8, 0.5]),
+                          "calc": rng.choice(["continuous", "stepwise"])}
+    return scn
+
+
+def _exhaustive():
+    """thorough tier: EVERY layout of <= 3 sessions on <= 2 stations within horizon 3 (valid ones), every
+    crash period k (also the non-invoked ones), max_recompute cycling through None / 1 / 2, a scripted
+    two-period schedule in flight"""
+    import itertools
+    slots = [(st, a_, d_) for st in ("S0", "S1") for a_ in range(0, 3) for d_ in range(a_ + 1, 4)]
+    out = []
+    idx = 0
+    for nn in range(0, 4):
+        for combo in itertools.combinations(range(len(slots)), nn):
+            ss = [_s(f"x{i}", slots[j][0], slots[j][1], slots[j][2], req=50.0) for i, j in enumerate(combo)]
+            if sum(combo) % 2:
+                ss.reverse()
+            scn = {"stations": [_basic(0), _basic(1)], "constraint": None, "sessions": ss,
+                   "recomputes": [1] if idx % 4 == 3 else [], "period": 5, "max_recompute": [None, 1, 2][idx % 3],
+                   "noise": [],
+                   "sched": {"type": "scripted", "default": [["S0", [16.0]], ["S1", [8.0]]],
+                             "script": [{"t": 1, "sched": [["S0", [6.0, 7.0]], ["S1", [9.0, 10.0]]]}]},
+                   "exhaustive": True}
+            idx += 1
+            if not S.is_valid_layout(scn):
+                continue
+            for k in _crash_points(scn, every=True):
+                out.append({"scn": scn, "k": k})
+    return out
+
+
 def generate(rng, n, tier):
     out = []
+    if tier == "thorough":
+        out.extend(_exhaustive())
     for i in range(n):
-        scn = _gen_stochastic(rng) if i % 5 == 4 else _gen_scn(rng)
+        scn = _gen_stochastic(rng) if i % 5 == 4 else _gen_real(rng) if i % 5 == 3 else _gen_scn(rng)
         for k in _crash_points(scn):
             out.append({"scn": scn, "k": k})
     return out
@@ -253,6 +313,82 @@ def _run_stoch(scn, k):
     return obs
 
 
+REAL = ("uncontrolled", "fcfs", "edf", "rr")
+
+
+def _is_real(scn):
+    return scn["sched"]["type"] in REAL
+
+
+def _real_inner(scn):
+    """the REAL algorithm of a scenario; `estimator`: SimpleRampdown (internal per-session bounds that
+    are NOT part of the serialised state), `uninterrupted`: minimum-rate preprocessing"""
+    from acnportal import algorithms as A
+    sc = scn["sched"]
+    est = A.SimpleRampdown() if sc.get("estimator") else None
+    kw = dict(estimate_max_rate=est is not None, max_rate_estimator=est,
+              uninterrupted_charging=bool(sc.get("uninterrupted")))
+    t = sc["type"]
+    if t == "uncontrolled":
+        inner = A.UncontrolledCharging()
+    elif t == "rr":
+        inner = A.RoundRobin(A.first_come_first_served, **kw)
+    else:
+        inner = A.SortedSchedulingAlgo(A.first_come_first_served if t == "fcfs" else A.earliest_deadline_first, **kw)
+    inner.max_recompute = scn.get("max_recompute")
+    return inner
+
+
+def _fresh_algo(scn):
+    if not _is_real(scn):
+        return S.make_scheduler(scn, S.Hooks())
+    algo = S.WrappedAlgo(_real_inner(scn), S.Hooks())
+    algo.max_recompute = scn.get("max_recompute")
+    return algo
+
+
+def _build(scn, hooks, store_hist=False):
+    """S.build_sim; for a real algorithm the wrapped inner algorithm is replaced by one built here (so that
+    the estimator / uninterrupted options exist)"""
+    sim, ctx = S.build_sim(scn, hooks, store_schedule_history=store_hist)
+    if _is_real(scn):
+        algo = ctx["scheduler"]
+        algo.inner = _real_inner(scn)
+        algo.inner.register_interface(algo.interface)
+    return sim, ctx
+
+
+class _FailAfter:
+    """`after` hook: raises once, in period k, AFTER the wrapped algorithm has computed its schedule (and
+    updated whatever internal state it keeps)"""
+
+    def __init__(self, k):
+        self.k = k
+        self.done = False
+
+    def __call__(self, algo, interface, sessions, schedule):
+        if interface.current_time == self.k and not self.done:
+            self.done = True
+            raise S.SchedulerFailure(f"failure after the algorithm ran, period {self.k}")
+        return None
+
+
+def _run_resume(scn, hooks):
+    """run b: crash, then run() again on the same object"""
+    with S.noise_stream(scn.get("noise", [])) as ns:
+        sim, ctx = _build(scn, hooks)
+        err = S.run_sim(sim)
+        if err is None:
+            obs = S.observe(sim, ctx, None)
+        else:
+            first = S.observe(sim, ctx, err)
+            err2 = S.run_sim(sim)
+            obs = S.observe(sim, ctx, err2)
+            obs["first"] = first
+        obs["noise_draws"] = ns["k"]
+    return obs
+
+
 def _run_a(scn):
     key = C.case_hash(scn)
     if key not in _A_CACHE and scn.get("stochastic"):
@@ -261,7 +397,7 @@ def _run_a(scn):
         if len(_A_CACHE) > 64:
             _A_CACHE.clear()
         with S.noise_stream(scn.get("noise", [])) as ns:
-            sim, ctx = S.build_sim(scn, S.Hooks(), store_schedule_history=True)
+            sim, ctx = _build(scn, S.Hooks(), True)
             err = S.run_sim(sim)
             obs = S.observe(sim, ctx, err)
             obs["noise_draws"] = ns["k"]
@@ -420,11 +556,12 @@ def _evs_of(sim, scn):
         [s["session"] for s in scn["sessions"] if s["session"] not in by]
 
 
-def _run_json(scn, k, store_hist, net_cls, want_store):
-    """run c / d"""
+def _run_json(scn, k, store_hist, net_cls, want_store, reattach="fresh"):
+    """run c / d.  reattach: "fresh" = a new algorithm object, "original" = the algorithm object of the
+    crashed simulator (keeps whatever internal state it has)"""
     del _OCC[:]
     with S.noise_stream(scn.get("noise", [])) as ns:
-        sim, ctx = S.build_sim(scn, S.Hooks(fail_at={k}, network_cls=net_cls), store_schedule_history=store_hist)
+        sim, ctx = _build(scn, S.Hooks(fail_at={k}, network_cls=net_cls), store_hist)
         err = S.run_sim(sim)
         out = {"fired": err == "SchedulerFailed" and sim.iteration == k}
         if not out["fired"]:
@@ -438,7 +575,9 @@ def _run_json(scn, k, store_hist, net_cls, want_store):
         try:
             js = sim.to_json()
             sim2 = Simulator.from_json(js)
-            algo2 = S.make_scheduler(scn, S.Hooks())
+            algo2 = _fresh_algo(scn) if reattach == "fresh" else ctx["scheduler"]
+            if reattach != "fresh":
+                del algo2.calls[:]
             sim2.update_scheduler(algo2)
             js2 = sim2.to_json()
         finally:
@@ -468,10 +607,15 @@ def run_impl(case):
     a = _run_a(scn)
     if scn.get("stochastic"):
         return {"a": a, "b": _run_stoch(scn, k), "c": None, "d": None}
-    b = S.run_impl_resume(scn, S.Hooks(fail_at={k}))
-    c = _run_json(scn, k, False, ChargingNetwork, True)
+    b = _run_resume(scn, S.Hooks(fail_at={k}))
+    c = _run_json(scn, k, False, ChargingNetwork, not _is_real(scn))
     d = _run_json(scn, k, True, LogNetwork, False)
-    return {"a": a, "b": b, "c": c, "d": d}
+    out = {"a": a, "b": b, "c": c, "d": d}
+    if _is_real(scn):
+        # the failure strikes AFTER the algorithm ran; and the original algorithm object re-attached after the load
+        out["b2"] = _run_resume(scn, S.Hooks(after=_FailAfter(k)))
+        out["c2"] = _run_json(scn, k, False, ChargingNetwork, False, reattach="original")
+    return out
 
 
 # ------------------------------------------------------------------ model
@@ -479,8 +623,8 @@ def run_impl(case):
 
 def model_request(case, obs=None):
     scn, k = case["scn"], int(case["k"])
-    if scn.get("stochastic"):
-        return None          # random space assignment is C19's model; here: oracle on the implementation
+    if scn.get("stochastic") or _is_real(scn):
+        return None          # random space assignment is C19's model, the sorting algorithms C07/C08's: oracle only
     req = {"sim": S.model_request(scn, fail_at={k}, resume=True), "reg": None}
     if obs and isinstance(obs.get("c"), dict) and obs["c"].get("store"):
         st = obs["c"]["store"]
@@ -494,6 +638,8 @@ def compare(case, obs, model):
         diffs.extend(S.compare(case["scn"], obs["b"], model["sim"]))
     reg = model.get("reg")
     st = obs["c"].get("store") if obs.get("c") else None
+    if st is not None and model.get("sim") and model["sim"].get("crash_store") is not None:
+        diffs.extend(_codec_diffs(model["sim"]["crash_store"], st["store"], st["root"]))
     if st is not None:
         if reg is None:
             diffs.append("registry: no model answer")
@@ -516,6 +662,162 @@ def compare(case, obs, model):
                         diffs.append(f"registry: entry {e[0]} differs")
                         break
     return diffs[:12]
+
+
+# ------------------------------------------------------------------ the model's codec against to_json()
+
+_WILD = "\u0000*"
+_BR = {"[", "]", "{", "}"}
+
+
+def _scalar(text, model_side):
+    if not model_side:
+        return json.loads(text)
+    if text == "-":
+        return _WILD
+    if text == "null":
+        return None
+    tag, _, body = text.partition(":")
+    if tag == "i":
+        return int(body)
+    if tag == "b":
+        return body == "true"
+    if tag == "s":
+        return body
+    if tag == "f":
+        return C.b2f(int(body))
+    if tag == "m":
+        return [[C.b2f(x) for x in row] for row in json.loads(body)]
+    raise ValueError(f"model scalar {text!r}")
+
+
+def _describe(store, root, model_side):
+    """tree unfolding of an object store from `root` (acyclic): class, attribute keys, scalars, and the
+    description of every referenced object in place of its id; plus the number of objects per class"""
+    by = {e[0]: e for e in store}
+    counts = {}
+    for e in store:
+        c = e[1].split(".")[-1]
+        counts[c] = counts.get(c, 0) + 1
+    memo = {}
+
+    def obj(i):
+        if i in memo:
+            return memo[i]
+        _, cls, attrs = by[i]
+        d = {}
+        for k, v in attrs:
+            if model_side and k.startswith("_model_"):
+                continue
+            if "r" in v:
+                d[k] = {"ref": obj(v["r"])}
+            elif "l" in v:
+                items = []
+                for it in v["l"]:
+                    if "r" in it:
+                        items.append({"ref": obj(it["r"])})
+                    elif model_side or it["s"] not in _BR:
+                        items.append(_scalar(it["s"], model_side))
+                d[k] = {"list": items}
+            else:
+                d[k] = _scalar(v["s"], model_side)
+        memo[i] = {"class": cls.split(".")[-1], "attrs": d}
+        return memo[i]
+
+    return obj(root), counts
+
+
+def _ev_key(x):
+    a = x["ref"]["attrs"]
+    sid = a["ev"]["ref"]["attrs"]["_session_id"] if "ev" in a else ""
+    return (a["timestamp"], x["ref"]["class"], sid)
+
+
+def _canon_lists(cls, k, items):
+    """orders that the property leaves open: heap layout of `_queue`, ties in the histories"""
+    if k in ("_queue", "ev_history", "_EVSEs"):
+        pairs = [items[i:i + 2] for i in range(0, len(items), 2)]
+        if k == "_queue":
+            pairs.sort(key=lambda p: _ev_key(p[1]))
+        elif k == "ev_history":
+            pairs.sort(key=lambda p: p[0])
+        return [x for p in pairs for x in p]
+    if k == "event_history":
+        return sorted(items, key=lambda x: (x["ref"]["attrs"]["timestamp"], PREC_C.get(x["ref"]["class"], 9), _ev_key(x)))
+    return items
+
+
+PREC_C = {"UnplugEvent": 0, "PluginEvent": 1, "RecomputeEvent": 2}
+
+
+def _match(m, i, path, diffs):
+    if len(diffs) > 5:
+        return
+    if isinstance(m, str) and m == _WILD:
+        return
+    if isinstance(m, dict) and "class" in m:
+        if not (isinstance(i, dict) and "class" in i):
+            diffs.append(f"{path}: model object vs {str(i)[:60]}")
+            return
+        if m["class"] != i["class"]:
+            diffs.append(f"{path}: class model {m['class']} impl {i['class']}")
+            return
+        if sorted(m["attrs"]) != sorted(i["attrs"]):
+            diffs.append(f"{path} ({m['class']}): attribute keys model {sorted(m['attrs'])} impl {sorted(i['attrs'])}")
+            return
+        for k in m["attrs"]:
+            _match(m["attrs"][k], i["attrs"][k], f"{path}.{k}", diffs)
+        return
+    if isinstance(m, dict) and "ref" in m:
+        if not (isinstance(i, dict) and "ref" in i):
+            diffs.append(f"{path}: model reference vs impl {str(i)[:60]}")
+            return
+        _match(m["ref"], i["ref"], path + "->", diffs)
+        return
+    if isinstance(m, dict) and "list" in m:
+        if not (isinstance(i, dict) and "list" in i):
+            # a list without references is a plain scalar on the implementation side (e.g. an empty history)
+            if i in ([], {}) and m["list"] == []:
+                return
+            diffs.append(f"{path}: model list vs impl {str(i)[:60]}")
+            return
+        k = path.rsplit(".", 1)[-1]
+        a, b = _canon_lists(None, k, m["list"]), _canon_lists(None, k, i["list"])
+        if len(a) != len(b):
+            diffs.append(f"{path}: {len(a)} items model, {len(b)} impl")
+            return
+        for n, (x, y) in enumerate(zip(a, b)):
+            _match(x, y, f"{path}[{n}]", diffs)
+        return
+    if isinstance(i, dict) and ("ref" in i or "list" in i or "class" in i):
+        if isinstance(i, dict) and "list" in i and m in ([], None) and i["list"] == []:
+            return
+        diffs.append(f"{path}: model scalar {m!r} vs impl reference/list")
+        return
+    if isinstance(m, list) and isinstance(i, list) and m and isinstance(m[0], list):
+        if len(m) != len(i) or any(len(r) != len(q) or any(not C.close(x, y) for x, y in zip(r, q)) for r, q in zip(m, i)):
+            diffs.append(f"{path}: matrices differ")
+        return
+    if isinstance(m, bool) or isinstance(i, bool) or m is None or i is None or isinstance(m, str) or isinstance(i, str):
+        if m != i:
+            diffs.append(f"{path}: model {m!r} impl {i!r}")
+        return
+    if isinstance(m, (int, float)) and isinstance(i, (int, float)):
+        if not C.close(m, i):
+            diffs.append(f"{path}: model {m!r} impl {i!r}")
+        return
+    if m != i:
+        diffs.append(f"{path}: model {m!r} impl {i!r}")
+
+
+def _codec_diffs(model_store, impl_store, impl_root):
+    diffs = []
+    md, mc = _describe(model_store, 0, True)
+    idesc, ic = _describe(impl_store, impl_root, False)
+    _match(md, idesc, "Simulator", diffs)
+    if mc != ic:
+        diffs.append(f"objects per class: model {sorted(mc.items())} impl {sorted(ic.items())}")
+    return ["codec: " + d for d in diffs[:5]]
 
 
 # ------------------------------------------------------------------ oracle
@@ -571,12 +873,17 @@ def _same(a, o, tag, k, check_invoked):
     return d
 
 
+def _hidden_state(scn):
+    return _is_real(scn) and bool(scn["sched"].get("estimator"))
+
+
 def oracle(case, obs):
     scn, k = case["scn"], int(case["k"])
     if not S.is_valid_layout(scn):
         return []
     a, b, c, d = obs["a"], obs["b"], obs["c"], obs["d"]
     fails = []
+    stateful = _hidden_state(scn)
     fired = "first" in b and b["first"]["err"] == "SchedulerFailed" and b["first"]["iter"] == k
     will_fire = k in a["invoked"]
     if fired != will_fire:
@@ -595,6 +902,8 @@ def oracle(case, obs):
             fails.append({"kind": "crash_point", "detail": f"{tag}: failure at {k} fired={r['fired']}"})
             continue
         dd = _same(a, r["obs"], f"after {tag} round trip", k, "tail" if r["fired"] else None)
+        if stateful and r["fired"]:
+            dd = []      # a FRESH estimator has lost its bounds: outside the property (see ASSUMPTIONS); measured in features
         if r["fired"] and r.get("missing_evs"):
             dd.append(f"EVs not reachable from the loaded simulator: {r['missing_evs']}")
         if dd:
@@ -608,7 +917,22 @@ def oracle(case, obs):
                 fails.append({"kind": "rejson_differs", "detail": f"{tag}, crash at {k}: to_json of the loaded simulator: " + "; ".join(r["rejson"][:3])})
             if r["same_object"]:
                 fails.append({"kind": "sharing_lost", "detail": "from_json returned the original object"})
-    if d is not None and d["fired"] and d["obs"].get("sched_hist") != a.get("sched_hist"):
+    if _is_real(scn):
+        b2, c2 = obs["b2"], obs["c2"]
+        if not stateful:
+            f2 = "first" in b2 and b2["first"]["err"] == "SchedulerFailed" and b2["first"]["iter"] == k
+            d2 = _same(a, b2, "resumed", k, "dup" if f2 else None)
+            if d2:
+                fails.append({"kind": "resume_after_schedule_differs",
+                              "detail": f"failure after the algorithm ran in period {k}, run() again: " + "; ".join(d2[:4])})
+        if c2["fired"] == will_fire:
+            d3 = _same(a, c2["obs"], "after json round trip + original algorithm", k, None)
+            if d3:
+                fails.append({"kind": "json_resume_original_algo_differs",
+                              "detail": f"crash at {k}, JSON round trip, the ORIGINAL algorithm object re-attached: " + "; ".join(d3[:4])})
+            if c2["fired"] and (c2["identity"] or c2["rejson"]):
+                fails.append({"kind": "sharing_lost", "detail": "; ".join((c2["identity"] + c2["rejson"])[:3])})
+    if d is not None and d["fired"] and not stateful and d["obs"].get("sched_hist") != a.get("sched_hist"):
         fails.append({"kind": "json_history_resume_differs",
                       "detail": f"crash at {k}: schedule_history {str(d['obs'].get('sched_hist'))[:300]} vs {str(a.get('sched_hist'))[:300]}"})
     return fails
@@ -647,6 +971,17 @@ def features(case, obs):
             f.append("crash_on_max_recompute_only")
         if any(len(r) > k + 1 and any(x != 0 for x in r[k + 1:]) for r in first["pilots"]):
             f.append("multi_period_schedule_in_flight")
+    if scn.get("exhaustive"):
+        f.append("exhaustive_small_scope")
+    if _is_real(scn):
+        f.append("real_algo=" + scn["sched"]["type"] + ("+estimator" if scn["sched"].get("estimator") else "")
+                 + ("+uninterrupted" if scn["sched"].get("uninterrupted") else ""))
+        if _hidden_state(scn) and fired:
+            fresh = _same(a, c["obs"], "", k, None) if c and c.get("fired") else []
+            f.append("estimator_fresh_algo_after_json=" + ("differs" if fresh else "same"))
+            b2 = obs.get("b2")
+            if b2 is not None and "first" in b2:
+                f.append("estimator_retry_after_it_ran=" + ("differs" if _same(a, b2, "", k, None) else "same"))
     if scn.get("stochastic"):
         f.append("stochastic_network" + ("_early" if scn["stochastic"]["early"] else ""))
         if fired and b["first"].get("stoch", {}).get("waiting"):
